@@ -292,7 +292,7 @@ BOUNDS = {
     'quick': 'base text: any string (all Unicode, no ESC) of length <=3 styled by <=2 apply steps over (red, bold, blue) on canonical ranges; '
              'separators/patterns any strings of length 1..2 (or None); count ALL integers, maxsplit -2..n+1; splitlines over {LF, CR, x, y}^<=4; '
              'case methods over a 6-char palette; assign_str to lengths 0..n+2; replace with 5 replacement forms',
-    'thorough': 'texts up to length 4',
+    'thorough': 'quick + split with 2 apply steps at n=3, and texts of length 4 for split (1 step), partition, strips, replace (plain / AnsiString replacement)',
 }
 OUTSIDE = 'longer texts; empty separators / empty old (C10 judges the text only); case mappings that change the length'
 ASSUMPTIONS = ['offsets of the pieces are derived from the str result (cumulative lengths), not from the implementation']
@@ -303,7 +303,7 @@ def obligations(tier):
     q = tier == 'quick'
     obs = [selftest_ob()]
     z1 = dict(s2=0, r2=0)
-    ns = (1, 2, 3) if q else (1, 2, 3, 4)
+    ns = (1, 2, 3)
     for m in (0, 1):
         for n in ns:
             need = ('split-happened', 'nonuniform') if n >= 2 else ()
@@ -314,7 +314,7 @@ def obligations(tier):
                 for r1 in range(len(ranges(n))):
                     obs.append(Ob('split/m%d/n%d/k1/r%d' % (m, n, r1), h_split, dict(n=n, kk=1, m=m, r1=r1, **z1), need=('split-happened',),
                                   budget=1500 if q else 4000, per_path=40, bounds='text length %d, 1 apply step on range #%d' % (n, r1), kinds=KINDS))
-            if n == 2 or (n == 3 and not q):
+            if n == 2 or (n == 3 and not q and m == 0):
                 for s1 in range(3):
                     for r1 in range(len(ranges(n))):
                         obs.append(Ob('split/m%d/n%d/k2/s%d/r%d' % (m, n, s1, r1), h_split, dict(n=n, kk=2, m=m, s1=s1, r1=r1), need=('split-happened',),
@@ -356,4 +356,17 @@ def obligations(tier):
             obs.append(Ob('replace/n%d/f%d' % (n, form), h_replace, dict(n=n, k=1, form=form, **z1),
                           need=('replaced',) + (('two-matches',) if n >= 2 else ()), budget=1500, per_path=40,
                           bounds='text length %d, old 1..2 chars, count all integers' % n, kinds=KINDS))
+    if not q:
+        # length 4: selected families
+        for r1 in range(len(ranges(4))):
+            obs.append(Ob('split/m0/n4/k1/r%d' % r1, h_split, dict(n=4, kk=1, m=0, r1=r1, **z1), need=('split-happened',), budget=2400, per_path=40,
+                          bounds='text length 4, 1 apply step on range #%d' % r1, kinds=KINDS))
+        for m in (0, 1):
+            obs.append(Ob('partition/m%d/n4' % m, h_partition, dict(n=4, k=1, m=m, **z1), need=('partitioned', 'absent'), budget=2400, bounds='text length 4', kinds=KINDS))
+        for m in range(5):
+            obs.append(Ob('strip/m%d/n4' % m, h_strip, dict(n=4, k=1, m=m, **z1), need=('shortened',), budget=2400, bounds='text length 4', kinds=KINDS))
+        for form in (0, 1):
+            for r1 in range(len(ranges(4))):
+                obs.append(Ob('replace/n4/f%d/r%d' % (form, r1), h_replace, dict(n=4, k=1, form=form, r1=r1, **z1), need=('replaced',), budget=2400, per_path=40,
+                              bounds='text length 4, old 1..2 chars, count all integers', kinds=KINDS))
     return obs
